@@ -286,7 +286,9 @@ func (d *Distributor) addSomeChain(ctx context.Context, rawChain [][]byte, loadP
 		}
 
 		// Chain might be rooted to the Log which has no root-info yet.
-		return d.usableLl.Compatible(parsedChain[0], nil, d.logRoots), parsedChain, nil
+		// Only Logs whose roots are not known yet remain candidates.
+		temporal := d.usableLl.TemporallyCompatible(parsedChain[0])
+		return temporal.RootCompatible(nil, d.logRoots), parsedChain, nil
 	}
 	compatibleLogs, parsedChain, err := compatibleLogsAndChain()
 	if err != nil {
